@@ -250,7 +250,7 @@ def match_known(known, prop, name, inp, detail):
     for k in known:
         if k.get("property") != prop or k.get("status", "open") != "open":
             continue
-        if k.get("oracle") != name:
+        if k.get("oracle") != name and not re.fullmatch(k.get("oracle", ""), name):
             continue
         pat = k.get("match")
         if pat is None or re.search(pat, inp + " || " + detail):
@@ -327,6 +327,10 @@ def main():
                     totals["oracle_evals"] += v
             samples += [f"{suite}: {s}" for s in (st.get("samples") or [])][:4]
             for (name, inp, detail) in r["oracles"]:
+                # oracles of shared suites are attributed: "Cnn:name" counts only for property Cnn
+                m = re.match(r"^(C\d\d):(.*)$", name)
+                if m and m.group(1) != prop:
+                    continue
                 failing.append(dict(oracle=name, suite=suite, input=inp, detail=detail))
             # replay on the model
             if r["cases"] and leanres["driver"]:
